@@ -61,7 +61,7 @@ func listSource(name string, l []string) source {
 	return source{name: name, n: len(l), at: func(i int) string { return l[i] }}
 }
 
-func runGrammar(r *ev.Run, col *sqlgen.Collector) {
+func runGrammar(r *ev.Run, expired func() bool, col *sqlgen.Collector) {
 	d := sqlgen.Current
 	thorough := r.Thorough()
 	all, core := sqlgen.Forms(), sqlgen.CoreForms()
@@ -167,7 +167,7 @@ func runGrammar(r *ev.Run, col *sqlgen.Collector) {
 		total += s.n
 		tl := newTally()
 		s := s
-		done := par.Do(s.n, r.Expired, func(i int) {
+		done := par.Do(s.n, expired, func(i int) {
 			c := caseT{Dialect: d, Kind: "grammar", SQL: s.at(i)}
 			out, t := roundTrip(col, c)
 			tl.add(out)
